@@ -30,7 +30,7 @@ TYPE = {'rr': R.REQUEST_RESPONSE, 'stream': R.REQUEST_STREAM, 'fnf': R.REQUEST_F
 
 def bounds(tier):
     return {'depth': DEPTH[tier], 'leases': LEASES, 'advances': ['ttl/2', 'ttl', 'ttl+1ms'], 'queue_sizes': [0, 2], 'fragment_sizes': [None, 64],
-            'responder_counts': [0, 1, 0x7FFFFFFF], 'responder_ttls_ms': [1000, 1500, 250, 1, 2250]}
+            'responder_counts': [0, 1, 0x7FFFFFFF], 'responder_ttls_ms': [1000, 1500, 250, 1, 2250, 86401500, 2073600000]}
 
 
 def symbols(kinds):
@@ -276,7 +276,7 @@ def run_unit(unit, part):
     if unit['kind'] == 'responder':
         for flavour in ('tcp', 'msg'):
             for count in (0, 1, 0x7FFFFFFF):
-                for ttl in (1000, 1500, 250, 1, 2250):
+                for ttl in (1000, 1500, 250, 1, 2250, 86401500, 2073600000):
                     for multi in (False, True):
                         responder_case(flavour, count, ttl, multi, part)
         part.sample({'kind': 'responder', 'counts': [0, 1, 0x7FFFFFFF], 'ttls_ms': [1000, 1500, 250, 1, 2250]})
